@@ -83,7 +83,7 @@ def run_ref(run, prop, ecos, caps, seeded_fn=None, extra_jobs_fn=None, shard=350
         tm = list(tok[eco]); rnd.shuffle(tm)
         for i in range(0, len(tm), shard):
             blk = tm[i:i + shard]
-            jobs.append({"k": "matrix", "eco": eco, "tag": "tokens", "texts": blk, "part": [1 if (eco == "alpm" and "-" in t) else 0 for t in blk]})
+            jobs.append({"k": "matrix", "eco": eco, "tag": "tokens", "texts": blk, "part": [vlib.part_of(eco, t) for t in blk]})
     if seeded_fn:
         jobs += seeded_fn(U, rnd, quick)
     if extra_jobs_fn:
